@@ -7,6 +7,7 @@
 //vp:bounds quick: A = 2 samples, first t in [-64,64), second sample arbitrary; B = 3 samples, first t in [0,64), first delta in [1,64), v1==v0 (so the third sample meets every delta-of-delta class and every value class with an empty window), third sample arbitrary
 //vp:bounds thorough adds: C = 2 arbitrary samples; D = 3 samples, first t in [0,64), first delta in [1,64), v1 arbitrary (third sample meets the reuse-window class); E = 3 samples, first t in [0,64), first delta arbitrary, v1==v0
 //vp:bounds XOR2 quick: profiles A and B with all start timestamps 0, plus S2 = 2 samples with pinned t/v and arbitrary start timestamps; thorough adds C, D, E (st=0), A and B with arbitrary start timestamps, and S3 = 3 samples with pinned t/v and arbitrary start timestamps
+//vp:bounds resume: 2 samples (first t in [0,64), delta in [1,64), st=0), reload with FromData, third sample arbitrary; second value = first (quick), or first=1.0 and second=staleness marker (quick), or both arbitrary (thorough)
 //vp:assume timestamps strictly increasing and within +-2^62 (the range the property states)
 package chunkenc
 
@@ -131,3 +132,75 @@ func vpXRoundTrip(c Chunk, withST bool) {
 func vpH_C10_xor_bounded() { vpXRoundTrip(NewXORChunk(), false) }
 
 func vpH_C10_xor2_bounded() { vpXRoundTrip(NewXOR2Chunk(), true) }
+
+// Appending resumes on a chunk reloaded from its bytes: two samples, reload with FromData, append a
+// third, iterate. The second value is pinned to {same as first, staleness marker} in quick and free in thorough.
+func vpXResume(enc Encoding, withST bool) {
+	hi := 1
+	if vpThorough() {
+		hi = 2
+	}
+	mode := vpShape("v1mode", 0, hi)
+	st, ts, vs := make([]int64, 3), make([]int64, 3), make([]float64, 3)
+	for i := 0; i < 3; i++ {
+		st[i], ts[i], vs[i] = vpInt64(), vpInt64(), vpFloat64()
+		if i > 0 {
+			vpAssume(ts[i-1] < ts[i])
+		}
+		if withST {
+			vpAssume(st[i] == 0)
+		}
+	}
+	vpAssume(vpAnd(ts[0] >= 0, ts[0] < 64))
+	vpAssume(vpAnd(ts[1]-ts[0] >= 1, ts[1]-ts[0] < 64))
+	vpAssume(ts[2] <= 1<<62)
+	switch mode {
+	case 0:
+		vpAssume(math.Float64bits(vs[1]) == math.Float64bits(vs[0]))
+	case 1:
+		vpAssume(math.Float64bits(vs[0]) == 0x3ff0000000000000) // 1.0
+		vpAssume(math.Float64bits(vs[1]) == 0x7ff0000000000002) // value.StaleNaN
+	}
+	c, err := NewEmptyChunk(enc)
+	if err != nil {
+		panic(err)
+	}
+	app, err := c.Appender()
+	if err != nil {
+		panic(err)
+	}
+	app.Append(st[0], ts[0], vs[0])
+	app.Append(st[1], ts[1], vs[1])
+	raw := append([]byte(nil), c.Bytes()...)
+	c2, err := FromData(enc, raw)
+	vpAssert(err == nil, "FromData")
+	if err != nil {
+		return
+	}
+	app2, err := c2.Appender()
+	vpAssert(err == nil, "Appender on reloaded chunk")
+	if err != nil {
+		return
+	}
+	app2.Append(st[2], ts[2], vs[2])
+	vpAssert(c2.NumSamples() == 3, "NumSamples")
+	it := c2.Iterator(nil)
+	for i := 0; i < 3; i++ {
+		vt := it.Next()
+		vpAssert(vt == ValFloat, "Next returns a float sample")
+		if vt != ValFloat {
+			return
+		}
+		t, v := it.At()
+		vpObserve("t", t)
+		vpObserve("v", v)
+		vpAssert(t == ts[i], "timestamp returned as appended")
+		vpAssert(math.Float64bits(v) == math.Float64bits(vs[i]), "value returned bit for bit")
+	}
+	vpAssert(it.Next() == ValNone, "iterator ends after the last sample")
+	vpAssert(it.Err() == nil, "no error")
+	vpReach("end")
+}
+
+func vpH_C10_xor_resume()  { vpXResume(EncXOR, false) }
+func vpH_C10_xor2_resume() { vpXResume(EncXOR2, true) }
